@@ -1263,11 +1263,12 @@ int hawk_rtx_flushio (hawk_rtx_t* rtx, hawk_out_type_t out_type, const hawk_ooch
 	/* look for the corresponding rio for name */
 	while (p)
 	{
-		/* without the check for io_mode and p->mode,
-		 * HAWK_OUT_FILE and HAWK_OUT_APFILE matches the
-		 * same entry since (io_type | io_mask) has the same value
-		 * for both. */
-		if (p->type == (io_type | io_mask) && p->mode == io_mode &&
+		/* HAWK_OUT_FILE and HAWK_OUT_APFILE match the same entry since
+		 * (io_type | io_mask) has the same value for both. this is
+		 * intended. prepare_for_write_io_data() doesn't compare the
+		 * mode either. a stream opened with > is the stream that
+		 * a later >> with the same name writes to and must flush. */
+		if (p->type == (io_type | io_mask) &&
 		    (name == HAWK_NULL || hawk_comp_oocstr(p->name, name, 0) == 0))
 		{
 			n = handler(rtx, HAWK_RIO_CMD_FLUSH, p, HAWK_NULL, 0);
